@@ -18,8 +18,8 @@ def _resolve_bool_local(body, sym, facts, l, val, unwind, depth):
         consts[c["v"]] = d[1]
     if set(consts) != {0, 1}:
         return []
-    f1 = facts_at(body, sym, facts, consts[1], unwind, depth)
-    f0 = facts_at(body, sym, facts, consts[0], unwind, depth)
+    f1 = _facts_at_raw(body, sym, facts, consts[1], unwind, depth)
+    f0 = _facts_at_raw(body, sym, facts, consts[0], unwind, depth)
     k0 = {(f["switch"], str(f["val"])) for f in f0}
     extra = [f for f in f1 if (f["switch"], str(f["val"])) not in k0]
     if len(extra) != 1:
@@ -34,7 +34,7 @@ def _resolve_bool_local(body, sym, facts, l, val, unwind, depth):
     return []
 
 
-def facts_at(body, sym, facts, bb, unwind=False, _depth=0):
+def _facts_at_raw(body, sym, facts, bb, unwind=False, _depth=0):
     """Symbolic facts that hold on every path reaching block bb.
     Each fact: {'expr': sym-expr, 'val': True|False|variant-name|('not', [names])|int, 'text': str, 'switch': bb}"""
     out = []
@@ -158,13 +158,58 @@ def _payload_origin_chains(body, x, variant, wants, depth, seen):
     return out
 
 
+def facts_at(body, sym, facts, bb, unwind=False, _depth=0):
+    """Symbolic facts that hold on every path reaching block bb: the facts carried by the dominating switch edges,
+    plus what follows from them for multiply-defined values (see fact_alternatives) when every definition that can
+    have produced the observed variant agrees on it."""
+    base = _facts_at_raw(body, sym, facts, bb, unwind, _depth)
+    if unwind or _depth:
+        return base
+    key = ("facts_at", bb)
+    cache = body.__dict__.setdefault("_facts_cache", {})
+    if key in cache:
+        return cache[key]
+    cache[key] = base      # re-entrancy guard
+    alts = _alternatives(body, sym, facts, bb, base, 8)
+    out = base
+    if alts and alts != [base]:
+        common = None
+        for alt in alts:
+            texts_ = {f["text"]: f for f in alt[len(base):]}
+            common = texts_ if common is None else {k: v for k, v in common.items() if k in texts_}
+        have = {f["text"] for f in base}
+        out = base + [dict(v, derived=True) for k, v in (common or {}).items() if k not in have]
+    cache[key] = out
+    return out
+
+
 def fact_alternatives(body, sym, facts, bb, max_alts=8):
-    """facts_at(bb), refined per definition: when a fact says that a multiply-defined local (e.g. the result of an
+    base = _facts_at_raw(body, sym, facts, bb)
+    return _alternatives(body, sym, facts, bb, base, max_alts)
+
+
+def _leaf_call_fact(body, sym, bb, wants):
+    """the definition in block bb is a call whose result is the value: that call returned one of `wants`"""
+    t = body.term(bb)
+    if t["k"] != "call" or t["dest"]["p"]:
+        return None
+    ty = body.local_ty(t["dest"]["l"])
+    val = None
+    for w in wants or ():
+        if (w in ("Ok", "Err") and ty.startswith("std::result::Result<")) or (w in ("Some", "None") and ty.startswith("std::option::Option<")):
+            val = w
+    if val is None:
+        return None
+    e = ("call", t["callee"]["path"], tuple(sym.op(a) for a in t["args"]), bb)
+    return {"expr": e, "val": val, "text": "%s is %s" % (render(e), val), "switch": bb, "derived": True}
+
+
+def _alternatives(body, sym, facts, bb, base, max_alts):
+    """base facts refined per definition: when a fact says that a multiply-defined local (e.g. the result of an
     inlined helper, or a value merged from several match arms) has a certain variant, the value must come from one
     of the definition chains that can produce that variant, and the facts of those definitions' blocks held when
     they ran.  Returns a list of alternative fact lists (a disjunction); a rule that needs P must find P in every
     alternative."""
-    base = facts_at(body, sym, facts, bb)
     alts = [base]
     for f in base:
         e, val = f["expr"], f["val"]
@@ -184,13 +229,23 @@ def fact_alternatives(body, sym, facts, bb, max_alts=8):
         for c in chains:
             extra = []
             for x in c:
-                extra += facts_at(body, sym, facts, x)
+                extra += _facts_at_raw(body, sym, facts, x)
+                lf = _leaf_call_fact(body, sym, x, wants) if any(d[0] == "call" and d[1] == x for d in body.defs_of(e[1])) or _is_chain_leaf_call(body, x, c) else None
+                if lf is not None:
+                    extra.append(lf)
             key = frozenset((fx["text"]) for fx in extra)
             extras.setdefault(key, extra)
         if len(extras) * len(alts) > max_alts:
             continue
         alts = [alt + extra for alt in alts for extra in extras.values()]
     return alts
+
+
+def _is_chain_leaf_call(body, x, chain):
+    """block x ends in a call whose destination is (transitively) the traced value: true when x is in the chain only
+    because of its call terminator (no assignment statement of the chain lives there)"""
+    t = body.term(x)
+    return t["k"] == "call" and not t["dest"]["p"] and any(d[0] == "call" and d[1] == x for d in body.defs_of(t["dest"]["l"]))
 
 
 def _variants_for_discr(body, facts, term, s):
